@@ -15,6 +15,7 @@ ENGINES = [
 ]
 
 HARNESSES = {
+    'C02': [dict(name='c02_control', src=['C02_control.cpp'], flavour='asan')],
     'C20': [dict(name='c20_repro', src=['C20_repro.cpp'], flavour='asan')],
     'C04': [dict(name='c04_costs', src=['C04_costs.cpp'], flavour='asan')],
     'C03': [dict(name='c03_interrupt', src=['C03_interrupt.cpp'], flavour='asan', ldflags=['-rdynamic'])],
@@ -43,6 +44,13 @@ DBE_NOTE = ('Trusted: the choice oracle (hook H1 + sampler-allocator seam) reall
             'g++/ASan build of libompl. Bounded: deviation bound D over the first N choice points, lattice samples, the listed worlds/configurations; silent beyond.')
 
 PROPERTY_META = {
+    'C02': dict(
+        deadline_quick=300, deadline_thorough=1500, engine='E1-DBE', design_ref='5/C02',
+        technique='deviation-bounded exhaustive exploration of every random answer, state sample and control sample of the real control planners; oracle re-propagates every segment with an independent copy of the system',
+        level_text='control::RRT (with/without intermediate states), SST, EST, KPIECE1, PDST, SyclopRRT, SyclopEST x point and unicycle (wrapped heading, asymmetric control bounds) systems x step '
+                   'sizes x min/max durations x maps: every execution with <= D deviations among the first N choice points plus the full product over the first control/state samples; each '
+                   '(state, control, duration) of every reported path is replayed step by step: whole number of steps, every step valid, next state reproduced, controls in bounds, goal/approximate coherent.',
+        level_note=DBE_NOTE + ' Controls come from a 12/16-element set including the bounds.'),
     'C20': dict(
         deadline_quick=400, deadline_thorough=1700, engine='E2-HBFS', design_ref='5/C20',
         technique='exhaustive enumeration of RNG-API histories, each executed in fresh processes; bounded differential enumeration of planner runs across address-layout and heap-content environments',
